@@ -1028,7 +1028,7 @@ var _ = reflect.DeepEqual
 func init() {
 	register(&Prop{
 		ID: "C09", Level: "exploration", Variant: "N", Design: "DESIGN.md §5 C09",
-		Rule:      "Three workloads over the simulated document store. Round trip: a probe struct with string, renamed, required, skipped, int, uint, bool, four list flavours (default, ', ', newline+strip, ','+strip), required list, version, dependency, architecture, architecture list, SHA-256 hash list, multi-line string and multiline-tagged string is filled from value models, marshalled through a simulated sink, checked for presence/omission rules on the raw text, unmarshalled through a simulated source (or through ConvertToParagraph/UnpackFromParagraph) and compared field by field; optionally the required field is removed from the text (must fail) or a sink/source fault is injected. Pass-through: a document with known fields and 0..5 unknown fields at tape-chosen positions is decoded into a struct embedding the raw paragraph, known fields are mutated or cleared, and the re-marshalled text is compared. Misc: nested plain struct decode; Marshal of pointer fields (nil and non-nil) must not panic.",
+		Rule:      "Three workloads over the simulated document store. Round trip: a probe struct with string, renamed, required, skipped, int, uint, bool, four list flavours (default, ', ', newline+strip, ','+strip), required list, version, dependency, architecture, architecture list, SHA-256 hash list, multi-line string and multiline-tagged string is filled from value models, marshalled through a simulated sink, checked for presence/omission rules on the raw text, unmarshalled through a simulated source (or through ConvertToParagraph/UnpackFromParagraph) and compared field by field; optionally the required field is removed from the text (must fail) or a sink/source fault is injected. Pass-through: a document with known fields and 0..5 unknown fields at tape-chosen positions is decoded into a struct embedding the raw paragraph, known fields are mutated or cleared, a required member is emptied or changed after the read, and the re-marshalled text is compared. Misc: nested plain struct decode; Marshal of pointer fields (nil and non-nil) must not panic.",
 		Run:       runC09,
 		QuickRuns: 400000, QuickSecs: 30, ThoroughRuns: 4_000_000, ThoroughSecs: 900,
 		Components: map[string]interface{}{
